@@ -711,6 +711,37 @@ pub fn run(cfg: &Cfg, rep: &mut Report) {
             ctx.sample(|| jobj(&[("corrupted_message", jbytes(&c)), ("operator", jstr(op)), ("reference", jstr(v))]));
         }
     });
+    // (2a) non-decimal literals at and beyond the 64-bit boundary. The element type carries a u64, so "carry
+    // their exact value" is decidable either way: a literal that fits must come out exact, one that does
+    // not fit cannot be carried and must not be turned into some other value (any error is accepted).
+    let n = cfg.n(40, 400_000, 20_000_000);
+    run_cases(cfg, "nondecimal-boundary", n, rep, |rng, ctx| {
+        let (lit, exact) = crate::gen::msg::gen_nondec_wide(rng);
+        let mut text = lit.clone();
+        let tail = rng.usize(3);
+        match tail {
+            0 => {}
+            1 => text.extend_from_slice(b" , 'x'"),
+            _ => text.extend_from_slice(b",#H1"),
+        }
+        bump(ctx, 1);
+        ctx.nontrivial(hash_bytes(&text));
+        let mut tz = Tokenizer::new_params(&text);
+        let first = tz.next();
+        match (exact, first) {
+            (Some(v), Some(Ok(Token::NonDecimalNumericProgramData(got)))) if got == v => {
+                ctx.count("nondecimal-boundary.exact");
+                if tail > 0 && !matches!(tz.next(), Some(Ok(Token::ProgramDataSeparator))) {
+                    ctx.violation("C04:non-decimal-boundary:element-boundary", jobj(&[("input", jbytes(&text))]));
+                }
+            }
+            (None, Some(Err(e))) => ctx.count(&format!("nondecimal-boundary.beyond-64-bit.rejected-with.{}", e.get_code())),
+            (_, other) => ctx.violation(
+                if exact.is_some() { "C04:non-decimal-value-not-exact" } else { "C04:non-decimal-beyond-64-bit-accepted-with-some-value" },
+                jobj(&[("input", jbytes(&text)), ("exact_value_if_it_fits_u64", jstr(&format!("{:?}", exact))), ("library", jstr(&format!("{:?}", other)))]),
+            ),
+        }
+    });
     // (2b) scale: one dimension of an otherwise ordinary message blown up past every 8/16-bit counter
     let n = cfg.n(6, 3_000, 60_000);
     run_cases(cfg, "scale", n, rep, |rng, ctx| {
